@@ -301,3 +301,22 @@ class Sym:
             return {"<": r == "<", "<=": r in "<=", ">": r == ">",
                     ">=": r in ">=", "==": r == "=", "!=": r != "="}[op]
         raise TTUnknown("comparison of a symbolic quantity with a constant")
+
+
+def seq_elems(t):
+    """Element terms of a list built by display, append, + and extend of
+    displays; None when the construction is not recognised."""
+    if t[0] in ("list", "tuple"):
+        return list(t[1])
+    if t[0] == "mut" and t[2] == "append" and len(t[3]) == 1:
+        base = seq_elems(t[1])
+        return None if base is None else base + [t[3][0]]
+    if t[0] == "mut" and t[2] == "extend" and len(t[3]) == 1:
+        base, more = seq_elems(t[1]), seq_elems(t[3][0])
+        return None if base is None or more is None else base + more
+    if t[0] == "bin" and t[1] == "+":
+        a, b = seq_elems(t[2]), seq_elems(t[3])
+        return None if a is None or b is None else a + b
+    if t[0] == "call" and t[1] == "builtins.list" and len(t[2]) == 1:
+        return seq_elems(t[2][0])
+    return None
